@@ -42,6 +42,8 @@ type CheckSpec struct {
 	LevelNote string
 	DesignRef string
 	Disabled  bool
+	// Gen produces extra overlay files (path relative to the repo root -> content) from the current tree
+	Gen func(repo string) (map[string][]byte, error)
 }
 
 type KnownFinding struct {
@@ -100,11 +102,29 @@ func buildOverlay(spec *CheckSpec) (map[string][]byte, map[string][]byte, error)
 			return nil, nil, fmt.Errorf("%s: no package clause", f)
 		}
 		pkg := string(m[1])
-		pkgs[pkg] = true
 		rel := filepath.Join(pkgDir(pkg), "zz_verif_"+strings.TrimSuffix(f, ".go")+".go")
 		sym[rel] = b
+		if strings.HasPrefix(f, "lib_") {
+			// helper compiled into the package proper (also natively); must not use intrinsics
+			nat[rel] = b
+			continue
+		}
+		pkgs[pkg] = true
 		// native: harness goes into a _test file so that it can use the test-only intrinsics
 		nat[filepath.Join(pkgDir(pkg), "zz_verif_"+strings.TrimSuffix(f, ".go")+"_test.go")] = b
+	}
+	if spec.Gen != nil {
+		extra, err := spec.Gen(repoRoot())
+		if err != nil {
+			return nil, nil, err
+		}
+		for rel, content := range extra {
+			sym[rel] = content
+			nat[strings.TrimSuffix(rel, ".go")+"_test.go"] = content
+			if m := pkgClauseRe.FindSubmatch(content); m != nil {
+				pkgs[string(m[1])] = true
+			}
+		}
 	}
 	intr, err := os.ReadFile(filepath.Join(hdir, "intr_sym.tmpl"))
 	if err != nil {
